@@ -86,7 +86,7 @@ func (g gen) honestElem(k *ecdsa.PrivateKey, c chainCfg, height uint64, eth bool
 }
 
 type admitReport struct {
-	Batches, Elements, Honest, Forged int
+	Batches, Sequences, Elements, Honest, Forged int
 	ByEntry                           map[string]int
 	Viols                             []violation
 	seen                              map[string]bool
@@ -212,36 +212,62 @@ func (rn *runner) batchOpPre(tag, entry string, c chainCfg, height uint64, pre, 
 }
 
 func runBatch(entry string, pool service.TransactionPool, c chainCfg, height uint64, batch []elem, rep *admitReport) {
+	runSequence(entry, pool, c, height, [][]elem{batch}, rep)
+}
+
+// runSequence delivers several batches one after the other through ONE handler in ONE process (the
+// pool is emptied only before the first), then checks by construction: every honestly signed element is
+// in the pool (admitted now or already present), no forged content is.
+func runSequence(entry string, pool service.TransactionPool, c chainCfg, height uint64, batches [][]elem, rep *admitReport) {
 	c.apply()
 	common.SetBlockHeight(height)
 	middleware.AccountDBManagerInstance.Height = height
 	pool.Clear()
-	txs := make([]*types.Transaction, len(batch))
-	for i, e := range batch {
-		txs[i] = cloneTx(e.tx)
-	}
-	res, body := driveEntry(entry, txs)
-	got := pool.GetReceived()
-	rep.Batches++
-	rep.ByEntry[entry]++
-	labels := ""
-	for i, e := range batch {
-		if i > 0 {
-			labels += ","
+	labels, bodies, res := "", "", "done"
+	var all []elem
+	for bi, batch := range batches {
+		txs := make([]*types.Transaction, len(batch))
+		for i, e := range batch {
+			txs[i] = cloneTx(e.tx)
 		}
-		labels += e.kind
+		r, body := driveEntry(entry, txs)
+		if r != "done" {
+			res = r
+		}
+		if bi > 0 {
+			labels += " | "
+			bodies += "|"
+		}
+		for i, e := range batch {
+			if i > 0 {
+				labels += ","
+			}
+			labels += e.kind
+		}
+		bodies += hx.Hex(body)
+		all = append(all, batch...)
+	}
+	got := pool.GetReceived()
+	rep.Batches += len(batches)
+	rep.ByEntry[entry] += len(batches)
+	if len(batches) > 1 {
+		rep.Sequences++
 	}
 	replay := func(i int) map[string]string {
 		return map[string]string{"entry": entry, "height": strconv.FormatUint(height, 10), "config": c.tokens(),
-			"batch_labels": labels, "position": strconv.Itoa(i), "batch_size": strconv.Itoa(len(batch)),
-			"element": "vt " + strconv.FormatUint(height, 10) + " " + c.tokens() + " " + txTokens(batch[i].tx),
-			"batch_hex": hx.Hex(body), "handler": res,
-			"how": "harness/bin/c07admit mode=admit (same VERIF_SEED) re-runs the batch through the real handler"}
+			"batches_labels": labels, "element_index": strconv.Itoa(i), "batches": strconv.Itoa(len(batches)),
+			"element": "vt " + strconv.FormatUint(height, 10) + " " + c.tokens() + " " + txTokens(all[i].tx),
+			"batches_hex": bodies, "handler": res,
+			"how": "harness/bin/c07 mode=admit (same VERIF_SEED) re-delivers the batches in this order through the real handler"}
 	}
 	if len(res) >= 5 && res[:5] == "PANIC" {
-		rep.viol("admission-handler-panic", "the "+entry+" admission handler panicked on a batch: "+res, replay(0))
+		rep.viol("admission-handler-panic", "the "+entry+" admission handler panicked: "+res, replay(0))
 	}
-	for i, e := range batch {
+	kindKey := "batch"
+	if len(batches) > 1 {
+		kindKey = "sequence"
+	}
+	for i, e := range all {
 		rep.Elements++
 		in := false
 		for _, p := range got {
@@ -252,14 +278,76 @@ func runBatch(entry string, pool service.TransactionPool, c chainCfg, height uin
 		if e.honest {
 			rep.Honest++
 			if !in {
-				rep.viol("batch-honest-dropped:"+entry, fmt.Sprintf("an honestly signed transaction (%s, position %d of %d) did not reach the pool through %s", e.kind, i, len(batch), entry), replay(i))
+				rep.viol(kindKey+"-honest-dropped:"+entry, fmt.Sprintf("an honestly signed transaction (%s, element %d; delivered: %s) did not reach the pool through %s — what was delivered before it must not matter", e.kind, i, labels, entry), replay(i))
 			}
 		} else {
 			rep.Forged++
 			if in {
-				rep.viol("batch-forged-admitted:"+entry, fmt.Sprintf("a forged transaction (%s, position %d of %d, batch %s) reached the pool through %s although it is not authentic", e.kind, i, len(batch), labels, entry), replay(i))
+				rep.viol(kindKey+"-forged-admitted:"+entry, fmt.Sprintf("a forged transaction (%s, element %d; delivered: %s) reached the pool through %s although it is not authentic", e.kind, i, labels, entry), replay(i))
 			}
 		}
+	}
+}
+
+// sameHashForgeries: tampered copies of an honest transaction that KEEP its Hash field (what a peer
+// relaying a modified copy, or junk carrying a known hash, looks like).
+func sameHashForgeries(g gen, h *types.Transaction) []elem {
+	var out []elem
+	add := func(kind string, f func(t *types.Transaction)) {
+		t := cloneTx(h)
+		f(t)
+		out = append(out, elem{t, false, kind})
+	}
+	if h.Type == types.TransactionTypeETHTX {
+		add("same-hash:eth-nonce-changed", func(t *types.Transaction) { t.Nonce += 1 })
+		add("same-hash:eth-source-zero", func(t *types.Transaction) { t.Source = "0x0000000000000000000000000000000000000000" })
+		add("same-hash:eth-data-changed", func(t *types.Transaction) { t.Data = t.Data + " " })
+		add("same-hash:eth-payload-bit", func(t *types.Transaction) {
+			b := []byte(t.ExtraData)
+			if b[len(b)-1] == '0' {
+				b[len(b)-1] = '1'
+			} else {
+				b[len(b)-1] = '0'
+			}
+			t.ExtraData = string(b)
+		})
+	} else {
+		add("same-hash:data-changed", func(t *types.Transaction) { t.Data = t.Data + "9" })
+		add("same-hash:nonce-changed", func(t *types.Transaction) { t.Nonce++ })
+		add("same-hash:target-changed", func(t *types.Transaction) { t.Target = t.Target + "0" })
+		add("same-hash:signature-twin", func(t *types.Transaction) { t.Sign = malleate(t.Sign) })
+		add("same-hash:signature-bit", func(t *types.Transaction) { t.Sign = flipSign(t.Sign, g.r.Intn(512)) })
+		add("same-hash:source-zero", func(t *types.Transaction) { t.Source = "0x0000000000000000000000000000000000000000" })
+	}
+	// junk that carries nothing but the hash
+	out = append(out, elem{&types.Transaction{Hash: h.Hash, Type: h.Type, Source: "0x" + hx.Hex(g.r.Bytes(20)), ChainId: h.ChainId,
+		Sign: common.BytesToSign(g.r.Bytes(65)), ExtraData: "0x"}, false, "same-hash:junk"})
+	return out
+}
+
+// sequenceFamily: deliveries that differ only in ORDER and GROUPING around one honest transaction and
+// tampered copies carrying its hash — same batch and separate batches, forged first, honest first,
+// honest twice, several forged ones — through one handler in one process.
+func sequenceFamily(g gen, kp *keyPool, entry string, pool service.TransactionPool, c chainCfg, height uint64, eth bool, rep *admitReport) {
+	k := g.keyFrom(kp)
+	h := g.honestElem(k, c, height, eth)
+	fs := sameHashForgeries(g, h.tx)
+	for i, f := range fs {
+		if len(fs) > 4 && i%2 == 1 && g.r.Bool() { // every kind over the rounds, not all orders for each
+			continue
+		}
+		h1 := g.honestElem(g.keyFrom(kp), c, height, !eth) // an unrelated honest bystander
+		runSequence(entry, pool, c, height, [][]elem{{f, h}}, rep)
+		runSequence(entry, pool, c, height, [][]elem{{h, f}}, rep)
+		runSequence(entry, pool, c, height, [][]elem{{f}, {h}}, rep)
+		runSequence(entry, pool, c, height, [][]elem{{h}, {f}, {h}}, rep)
+		runSequence(entry, pool, c, height, [][]elem{{f, h1}, {h1, h}, {f}}, rep)
+	}
+	runSequence(entry, pool, c, height, [][]elem{{h, h}}, rep)
+	runSequence(entry, pool, c, height, [][]elem{{h}, {h}}, rep)
+	if len(fs) >= 3 {
+		runSequence(entry, pool, c, height, [][]elem{{fs[0], fs[1]}, {fs[2]}, {h}}, rep)
+		runSequence(entry, pool, c, height, [][]elem{{fs[len(fs)-1]}, {fs[0], h}}, rep)
 	}
 }
 
@@ -278,7 +366,11 @@ func admissionMode(a map[string]string, pool service.TransactionPool) {
 			}
 			for _, height := range heights {
 				for _, entry := range []string{"worker", "write", "runwrite"} {
-					// deterministic small scope first: sizes 1..4, the forged element at every position,
+					// process-local history first: order/grouping of an honest transaction and tampered
+					// copies carrying its hash (native and wrapped ETH)
+					sequenceFamily(g, kp, entry, pool, c, height, false, rep)
+					sequenceFamily(g, kp, entry, pool, c, height, true, rep)
+					// deterministic small scope: sizes 1..4, the forged element at every position,
 					// every forged kind once per (entry, height); then mixed larger batches
 					kind := 0
 					for size := 1; size <= 4; size++ {
@@ -325,7 +417,7 @@ func admissionMode(a map[string]string, pool service.TransactionPool) {
 	for class, w := range refDisagree {
 		rep.viol("reference-disagrees:"+class, "the code under test disagrees with an independent reference ("+class+"): "+w, map[string]string{"witness": w})
 	}
-	out := map[string]interface{}{"batches": rep.Batches, "elements": rep.Elements, "honest": rep.Honest, "forged": rep.Forged,
+	out := map[string]interface{}{"sequences": rep.Sequences, "batches": rep.Batches, "elements": rep.Elements, "honest": rep.Honest, "forged": rep.Forged,
 		"by_entry": rep.ByEntry, "violations": rep.Viols}
 	b, _ := json.Marshal(out)
 	fmt.Println("ADMIT " + string(b))
